@@ -4,10 +4,11 @@ CONSTANTS
   Ints <- KeyInts
   Strs <- KeyStrs
   Tags <- NoTags
+  Simples <- NoSimples
   MaxStack = 4
   MaxNodes = 5
   MaxDepth = 2
   MaxArr = 0
   MaxPairs = 2
   AllowWrap = FALSE
-INVARIANTS TypeOK RoundTrip SelfDelimiting NoItemIsAPrefix PrefixFree CanonicalEncoding ReEncode HeadIsShortest WrapIsExact 
+INVARIANTS Theorems 
